@@ -32,14 +32,14 @@ TABLE = {
         ref="DESIGN.md section 4, C05",
     ),
     "C06": dict(
-        technique="exhaustive enumeration of short token sequences + Hypothesis token-mutation and character-noise fuzzing, outcome-class oracle",
-        text="Every token sequence up to length 3 (quick) / 4 and 5 over a reduced alphabet (thorough) after 8 context prefixes is parsed and its outcome classified; beyond that, Hypothesis mutates valid programs at token level and generates character noise. Complete inside the enumerated bound, statistical outside it; absence of crashes on longer inputs is not established.",
+        technique="exhaustive enumeration of short token sequences and of short literal strings + Hypothesis token-mutation, construct splicing, character-noise and directive-line fuzzing + coverage-guided campaigns (atheris/libFuzzer) with a committed corpus; outcome-class oracle",
+        text="Every token sequence up to length 3 (quick) / 4 and 5 over a reduced alphabet (thorough) after 8 context prefixes is parsed and its outcome classified; every string up to length 4 / 5 over three literal alphabets is parsed in two positions; beyond that, Hypothesis mutates valid programs at token level, splices constructs, generates character noise (incl. characters Python takes for digits or blanks) and # lines from hostile pieces, and 6 (quick) / 20 (thorough) coverage-guided campaigns of 12 000 / 600 000 executions run on the instrumented package, half from an empty corpus and half from the committed one (replayed without the fuzzer as well); every failure bucket is re-decided by the check itself. Complete inside the enumerated bounds, statistical outside them; absence of crashes on longer inputs is not established.",
         note="Trusted: the outcome classifier (vlib/oracle.py), a CPU-time alarm as the only non-termination detector, RecursionError tolerated above 100 tokens.",
         ref="DESIGN.md section 4, C06",
     ),
     "C07": dict(
-        technique="round-trip oracle (parse . generate . parse = parse, regenerate = identity) over enumerated small constructs, Hypothesis-generated translation units, corpus and accepted token-mutants, both generator configurations",
-        text="Every 2-operator expression tree, every derivation sequence up to length 2 (quick) / 3 (thorough) in 11 contexts, every small statement tree and switch body, Hypothesis-generated whole translation units, the preprocessed repository corpus, the corner catalogue and accepted token-mutants are round-tripped with reduce_parentheses off and on. Complete inside the enumerated bound, statistical beyond; listed generator findings (F21, F25a, F12*) are excluded by construction or by an AST predicate on the input.",
+        technique="round-trip oracle (parse . generate . parse = parse, regenerate = identity) over enumerated small constructs, Hypothesis-generated translation units, corpus, accepted token-mutants and accepted inputs of coverage-guided campaigns (atheris/libFuzzer, parser and generator instrumented), both generator configurations",
+        text="Every 2-operator expression tree, every derivation sequence up to length 2 (quick) / 3 (thorough) in 11 contexts, every small statement tree and switch body, Hypothesis-generated whole translation units, the preprocessed repository corpus, the corner catalogue, accepted token-mutants, the committed fuzz corpus and the accepted inputs of 4 (quick) / 20 (thorough) coverage-guided campaigns (round trip inside the fuzz target, buckets re-decided by the check) are round-tripped with reduce_parentheses off and on. Complete inside the enumerated bound, statistical beyond; listed generator findings (F21, F25a, F12*) are excluded by construction or by an AST predicate on the input.",
         note="Trusted: astdump.dump as structural equality; programs the parser rejects carry no claim.",
         ref="DESIGN.md section 4, C07",
     ),
@@ -57,19 +57,19 @@ TABLE = {
     ),
     "C10": dict(
         technique="exhaustive enumeration of short strings over three literal alphabets against strict and lenient reference grammars (sandwich oracle) + Hypothesis grammar-based literals and corruptions; Constant type/value through the parser",
-        text="Every string up to length 5 (quick) / 6 (thorough) over integer, floating and character/string alphabets is lexed and compared with an independent strict C99 literal grammar (must be accepted) and a lenient one (what is accepted must be a literal of that class); malformed families must invoke the error callback; accepted literals are parsed and Constant.value/type compared with what the spelling implies. Complete inside the bound; long literals sampled.",
+        text="Every string up to length 5 (quick) / 6 (thorough) over integer, floating and character/string alphabets is lexed and compared with an independent strict C99 literal grammar (must be accepted) and a lenient one (what is accepted must be a literal of that class); malformed families must invoke the error callback; accepted literals are parsed as an initializer, in 6 other positions and in 4 positions the parser reads twice (type name of a compound literal) and Constant.value/type compared with what the spelling implies; Hypothesis-generated runs of adjacent string literals of one prefix family in 13 positions must give one Constant with the concatenated spelling. Complete inside the bound; long literals sampled.",
         note="Trusted: strict/lenient literal grammars in vlib/reflex.py and the malformed-family predicates in vlib/props/c10.py.",
         ref="DESIGN.md section 4, C10",
     ),
     "C14": dict(
         technique="exhaustive sentinel-instance sweep over the classes of _c_ast.cfg (read by an independent cfg parser) + instrumented visitors and show() on Hypothesis-generated and corpus ASTs against the preorder computed from the cfg",
-        text="All node classes x all subsets of absent children x sequence shapes are enumerated completely and compared with the cfg (signature, slots, attr_names, children(), iteration); traversal (generic, selective with random class subsets, reused visitors) and show() line counts are checked on generated and corpus ASTs against a preorder derived from the cfg, not from children().",
+        text="All node classes x all subsets of absent children x sequence shapes are enumerated completely and compared with the cfg (signature, slots, attr_names, children(), iteration); traversal (generic, selective with random class subsets, reused visitors, visitor class hierarchies, handlers attached to the instance or served by __getattr__, reuse after a traversal abandoned by an exception) and show() line counts are checked on generated and corpus ASTs against a preorder derived from the cfg, not from children().",
         note="Trusted: the 10-line cfg reader; show() line rule is not asserted for ASTs with node-valued attributes (known finding F29).",
         ref="DESIGN.md section 4, C14",
     ),
     "C15": dict(
         technique="round-trip oracles (eval(repr), pickle protocols 2..HIGHEST, deepcopy) with structural dump equality incl. coordinates, id-disjointness and mutate-the-copy independence on Hypothesis-generated ASTs with hostile literals and on the corpus",
-        text="Generated translation units whose string/character constants and pragma texts come from a hostile pool (quotes, backslashes, escapes, non-ASCII, repr look-alikes) and the corpus are parsed; each AST is rebuilt through repr/eval, every supported pickle protocol and deepcopy and compared structurally, by generated text, by object identity and by mutating the copy. Statistical over generated programs.",
+        text="Generated translation units whose string/character constants and pragma texts come from a hostile pool (quotes, backslashes, escapes, non-ASCII, repr look-alikes) and the corpus are parsed; each AST is rebuilt through repr/eval, every supported pickle protocol and deepcopy and compared structurally, by generated text under both generator configurations (also for the repr-rebuilt tree), by object identity and by mutating the copy; every second AST is copied while weak references to all its nodes are alive. Statistical over generated programs.",
         note="Trusted: astdump.dump (walks __slots__, including node-valued attributes and Coord fields).",
         ref="DESIGN.md section 4, C15",
     ),
@@ -81,26 +81,26 @@ TABLE = {
     ),
     "C17": dict(
         technique="metamorphic oracle: re-layout (line-per-token, single line with maximal adjacency, random blanks/tabs/newlines, linemarkers changing line and file between arbitrary tokens) and redundant-parenthesis re-rendering of Hypothesis-generated and corpus programs must leave dump and regenerated text unchanged",
-        text="Each generated translation unit (token list from the model renderer) and each corpus file (split by the reference tokenizer) is laid out in two extreme and several random ways, with linemarkers of 8 forms between arbitrary tokens; model programs are additionally re-rendered with redundant parentheses. All variants must parse to the same AST (coordinates aside) and regenerate the same text. Statistical; corpus files are randomised inside a sliding 250-token span.",
+        text="Each generated translation unit (token list from the model renderer) and each corpus file (split by the reference tokenizer) is laid out in two extreme and several random ways, with linemarkers of 8 forms between arbitrary tokens; model programs are additionally re-rendered with redundant parentheses (identifiers and constants included), and every expression tree with <= 2 (quick) / 3 (thorough) operators is rendered with every subset of its operands parenthesised. All variants must parse to the same AST (coordinates aside) and regenerate the same text. Statistical; corpus files are randomised inside a sliding 250-token span.",
         note="Trusted: the reference tokenizer's adjacency rule; programs the tree does not accept carry no claim.",
         ref="DESIGN.md section 4, C17",
     ),
     "C18": dict(
-        technique="exhaustive single-bracket mutation and non-token injection of Hypothesis-generated and corpus programs + exhaustive bracket strings in three contexts, bracket-matcher oracle",
-        text="Every single-bracket deletion, duplication and kind swap and every injection of non-token text at bracket positions and declaration/statement boundaries (every token boundary in the thorough tier) of accepted programs must be rejected with ParseError; all bracket strings up to length 6 (quick) / 8 (thorough) in expression, declarator and statement contexts that an independent matcher finds unbalanced must be rejected. Complete per base program and inside the string bound; base programs are sampled.",
+        technique="exhaustive single-bracket mutation and non-token injection of Hypothesis-generated and corpus programs (incl. every offset of every line directive) + exhaustive bracket strings in three contexts + coverage-guided campaigns (atheris/libFuzzer) over token sequences; bracket-matcher / non-token oracle",
+        text="Every single-bracket deletion, duplication and kind swap and every injection of non-token text at bracket positions and declaration/statement boundaries (every token boundary in the thorough tier) of accepted programs must be rejected with ParseError; all bracket strings up to length 6 (quick) / 8 (thorough) in expression, declarator and statement contexts that an independent matcher finds unbalanced must be rejected; non-token text and single brackets at every offset of every line directive of cpp-style and generated programs must be rejected; 4 (quick) / 20 (thorough) coverage-guided campaigns and the committed fuzz corpus check that token sequences with a non-token or non-nesting brackets are rejected. Complete per base program and inside the string bound; base programs are sampled.",
         note="Trusted: the 10-line bracket matcher and the reference tokenizer used to split corpus files.",
         ref="DESIGN.md section 4, C18",
     ),
     "C12": dict(
-        technique="Hypothesis RuleBasedStateMachine over one long-lived CParser / CGenerator pair / CLexer, differential oracle against fresh instances after every call, id-disjointness of returned ASTs",
-        text="Histories of 20-40 calls (valid generated programs, programs truncated at arbitrary tokens incl. right after a #pragma token, a pool of clashing programs, token soup, repeated texts, code generation from any earlier AST, re-use of a bare lexer) are run on reused instances; every outcome (AST with coordinates or exception type and message, generated text, token stream) must equal a fresh instance's and ASTs must share no objects. Statistical over histories; shrinking works on the rule sequence.",
-        note="Trusted: a fresh instance as the reference behaviour; astdump.dump with coordinates.",
+        technique="Hypothesis RuleBasedStateMachine over one long-lived CParser / CGenerator pair / CLexer, differential oracle after every call against a private copy of the package created for that one call (no module- or class-level state shared with the instance under test), id-disjointness of returned ASTs",
+        text="Histories of 20-40 calls (valid generated programs, programs truncated at arbitrary tokens incl. right after a #pragma token, a pool of clashing programs, texts identical up to one hole, token soup, repeated texts, code generation from any earlier AST, re-use of a bare lexer) are run on reused instances; every outcome (AST with coordinates or exception type and message, generated text, token stream) must equal a fresh instance's and ASTs must share no objects. Statistical over histories; shrinking works on the rule sequence.",
+        note="Trusted: vlib/pristine.py (a fresh execution of the package sources under a private module name per reference; a fresh in-process instance is compared with it on every fourth call); astdump.dump with coordinates.",
         ref="DESIGN.md section 4, C12",
     ),
     "C13": dict(
-        technique="schedule-owning harness: a lexer subclass injected through lexer= (and yielding CGenerator / NodeVisitor subclasses) parks each thread at every token()/visit() so that interleavings are values; exhaustive interleavings of short clashing program pairs, Hypothesis-generated schedules for 2-4 longer programs, free-running threads with minimal switch interval; oracle = results of the same calls run alone",
-        text="All interleavings at token granularity of 5 (quick) / 7 (thorough) clashing program pairs are enumerated; Hypothesis draws schedules for 2-4 parsers, generators and visitor subclasses on pool and generated programs; 4 and 8 free-running threads repeat parse+generate loops. Every result must equal the solo result. Complete for the enumerated pairs, statistical beyond; races inside a single method are only reachable by the free-running part.",
-        note="Trusted: the controller (a stall of 6 s is reported as a difference, never ignored); solo runs as reference.",
+        technique="schedule-owning harness: a lexer subclass injected through lexer= (and yielding CGenerator / NodeVisitor subclasses) parks each thread at every token()/visit() so that interleavings are values; exhaustive interleavings of short clashing program pairs, Hypothesis-generated schedules for 2-4 longer programs, free-running threads with minimal switch interval; oracle = results of the same calls run alone, computed by a private copy of the package per call and, for the pool programs, by a forked process without parsing history",
+        text="All interleavings at token granularity of 6 (quick) / 8 (thorough) clashing program pairs (incl. directives without file name; every program has its own file name) are enumerated; Hypothesis draws schedules for 2-4 parsers, generators and visitor subclasses on pool programs (two of them far deeper than the recursion limit) and generated programs; 4 and 8 free-running threads repeat parse+generate loops. Every result must equal the solo result. Complete for the enumerated pairs, statistical beyond; races inside a single method are only reachable by the free-running part.",
+        note="Trusted: the controller (raw locks only; a stall of 8 s that repeats with an 80 s limit is reported as a difference, never ignored); vlib/pristine.py for the references.",
         ref="DESIGN.md section 4, C13",
     ),
     "C11": dict(
@@ -110,14 +110,14 @@ TABLE = {
         ref="DESIGN.md section 4, C11",
     ),
     "C16": dict(
-        technique="scalable-family generation (enumerated units and ordered pairs, Hypothesis-composed triples, repetition families) with a deterministic work oracle (Python call events under the pycparser package via sys.setprofile) and doubling-ratio tests; CPU-time ratio tests on large inputs and creeping wall-time tests for the lexer regexes",
-        text="All single nesting units and ordered pairs of 36 expression, 14 statement and 9 declarator units, Hypothesis-drawn triples and 35 repetition families are parsed at doubling sizes; the number of pycparser-internal calls must at most double (x2.3 + slack) per doubling. Work invisible to the call counter is covered by CPU-time ratios at 3 200 vs 12 800 repetitions (11 families) and by timing 29 adversarial literal families for the lexer. Complete over the enumerated units; the timing halves have wide margins and re-measure before reporting.",
-        note="Trusted: call counting by package directory; timing thresholds (5.5x for 4x input, 0.5 s for <= 64 units of an escape run). The exponential re-parse of a compound literal inside the type name of a compound literal is a known finding (F30) and excluded.",
+        technique="scalable-family generation (enumerated units and ordered pairs, Hypothesis-composed triples, repetition families) with deterministic work oracles: Python call events (nesting families) and line events (repetition families) under the pycparser package with doubling-ratio and second-difference tests, executed machine instructions of a fresh interpreter under valgrind for large inputs; creeping and long-input CPU-time tests for the lexer regexes",
+        text="All single nesting units and ordered pairs of 46 expression, 14 statement and 9 declarator units, Hypothesis-drawn triples and 55 repetition families are parsed at doubling sizes; the number of pycparser-internal call / line events must at most double (x2.3 + slack) per doubling and, over four doubling sizes, show no quadratic component (second differences). Work inside single C-level operations is measured in executed instructions at k and 4k for 9 (quick) / 18 (thorough) families: at most 8 % of the work at 4k may be in excess of linear growth. 30 adversarial literal families are timed for the lexer (creeping from 2 units; 64-512 and 2 000-16 000 characters). Complete over the enumerated units; only the lexer part uses time, with wide margins, CPU time and re-measurement.",
+        note="Trusted: event counting by package directory; valgrind instruction counts (reproducible to 0.001 %); lexer timing thresholds (0.5 s for <= 64 units of an escape run, > 3x per doubling twice in a row above 20 ms). The exponential re-parse of a compound literal inside the type name of a compound literal is a known finding (F30) and excluded, as is the k^2 cost of k array suffixes (F34).",
         ref="DESIGN.md section 4, C16",
     ),
     "C04": dict(
-        technique="history generation against a reference scope model: exhaustive enumeration of declaration-event sequences over a 24-event alphabet with probes after every event + Hypothesis-generated longer histories (shrinking the event list)",
-        text="All event sequences up to length 3 and half of length 4 (quick) / all up to length 4 and a seventh of length 5 (thorough) over typedef/object/function/enumerator/tag/member/prototype-parameter/label/function/block events for two names are rendered with four kinds of probe statements after every event for every name; a reference scope stack written from C99 6.2.1 predicts the reading (declaration/cast/type operand vs expression) of each probe. Complete inside the bound; events that trigger the listed scoping findings (F13-F18, F9a) are excluded and replayed separately.",
+        technique="history generation against a reference scope model: exhaustive enumeration of declaration-event sequences over a 26-event alphabet with probes after every event + Hypothesis-generated longer histories (shrinking the event list)",
+        text="All event sequences up to length 3 and half of length 4 (quick) / all up to length 4 and a seventh of length 5 (thorough) over typedef/object/function/enumerator/tag/member/prototype-parameter/label/function (plain, name as parameter, name as the function's own name)/block events, each in 3-8 spellings, for two names are rendered with four kinds of probe statements after every event for every name; a reference scope stack written from C99 6.2.1 predicts the reading (declaration/cast/type operand vs expression) of each probe. Complete inside the bound; events that trigger the listed scoping findings (F13-F18, F9a) are excluded and replayed separately.",
         note="Trusted: the reference scope model in vlib/props/c04.py; histories it deems invalid C carry no claim.",
         ref="DESIGN.md section 4, C04",
     ),
